@@ -1430,14 +1430,34 @@ func runLoopProgress(p *Prog, r *Report) {
 			}
 			n++
 			construct := "for " + exprStrOrEmpty(fs.Cond)
-			be, ok := ast.Unparen(fs.Cond).(*ast.BinaryExpr)
-			if fs.Cond == nil || !ok {
-				r.Add("E14.loop-progress", fn.Name, construct, p.Pos(fs), Undecided, "loop without a comparison condition", true)
+			if fs.Cond == nil {
+				r.Add("E14.loop-progress", fn.Name, construct, p.Pos(fs), Undecided, "loop without a condition", true)
 				return true
 			}
-			id, ok := ast.Unparen(be.X).(*ast.Ident)
-			if !ok {
-				r.Add("E14.loop-progress", fn.Name, construct, p.Pos(fs), Undecided, "loop condition does not compare a variable", true)
+			// any conjunct `v <op> bound` with a plain variable on the left ends the loop when it fails
+			var be *ast.BinaryExpr
+			var id *ast.Ident
+			var conj func(e ast.Expr)
+			conj = func(e ast.Expr) {
+				b, ok := ast.Unparen(e).(*ast.BinaryExpr)
+				if !ok || be != nil {
+					return
+				}
+				if b.Op == token.LAND {
+					conj(b.X)
+					conj(b.Y)
+					return
+				}
+				switch b.Op {
+				case token.LSS, token.LEQ, token.GTR, token.GEQ:
+					if i, ok := ast.Unparen(b.X).(*ast.Ident); ok {
+						be, id = b, i
+					}
+				}
+			}
+			conj(fs.Cond)
+			if be == nil {
+				r.Add("E14.loop-progress", fn.Name, construct, p.Pos(fs), Undecided, "loop condition does not compare a variable with a bound", true)
 				return true
 			}
 			o := info.ObjectOf(id)
@@ -1481,15 +1501,23 @@ func runLoopProgress(p *Prog, r *Report) {
 					return true
 				})
 			}
+			nBody := len(steps)
 			if post != nil {
 				check(post, true)
 			}
+			stepInPost := len(steps) == 1 && nBody == 0
 			// the step must be the last top-level statement (every iteration that does not leave reaches it)
 			if len(steps) != 1 || other {
 				r.Add("E14.loop-progress", fn.Name, construct, p.Pos(fs), Undecided, "no single unconditional step of the loop variable towards its bound", true)
 				return true
 			}
 			st := steps[0]
+			if stepInPost {
+				if _, isInc := post.(*ast.IncDecStmt); isInc {
+					r.Add("E14.loop-progress", fn.Name, construct, p.Pos(fs), OK, "the post statement moves the loop variable towards its bound by 1 on every iteration (continue included)", true)
+					return true
+				}
+			}
 			if st.Pos().IsValid() {
 				// continue statements before the step would skip it
 				skip := false
@@ -1510,7 +1538,7 @@ func runLoopProgress(p *Prog, r *Report) {
 						return true
 					})
 				}
-				if skip {
+				if skip && !stepInPost {
 					r.Add("E14.loop-progress", fn.Name, construct, p.Pos(fs), Undecided, "a continue can skip the step of the loop variable", true)
 					return true
 				}
